@@ -5,6 +5,7 @@ CONSTANTS
   Kind <- MCKind
   Order <- MCOrder
   MaxVer = 3
+  MaxLate = 2
   CloudKind = "noassign"
   Params = {"cloudP", "mix", "T"}
   D = 99
